@@ -11,7 +11,7 @@ def steps_for(corpus, tier):
 RANDOM = {"name": "random", "n": {"quick": 48, "thorough": 600}}
 FAULTS = {"name": "faults", "n": {"quick": 18, "thorough": 18}, "seed0": 0, "seeded": False}
 REWARDS = {"name": "rewards", "n": {"quick": 16, "thorough": 48}, "seed0": 0, "seeded": False}
-SCRIPTED = {"name": "scripted", "n": {"quick": 20, "thorough": 60}, "seed0": 0, "seeded": False}
+SCRIPTED = {"name": "scripted", "n": {"quick": 32, "thorough": 96}, "seed0": 0, "seeded": False}
 
 
 def _cons(e, c):
@@ -392,16 +392,16 @@ PROPS = {
     },
     "C04": {
         "level": "model_checking", "mc": MC_CAP, "corpora": [RANDOM, SCRIPTED, {"name": "vectors", "n": {"quick": 3, "thorough": 3}, "seed0": 0, "seeded": False}],
-        "invariants": ["C04_VecPowerCap", "C04_VecSetCap"],
+        "invariants": ["C04_VecPowerCap", "C04_VecSetCap", "C04_VecPowerCapBig"],
         "properties": ["C04_Cap", "C04_PowerCap"],
         "classify": cls_c04, "rule": "set computations with a validator-set cap or power cap in force; plus the exported functions NoMoreThanPercentOfTheSum / CapValidatorSet run on every multiset of <= 5 powers from three small domains x every cap / percentage (complete enumeration of that domain)",
-        "required_classes": {"quick": ["VecPowerCap", "VecSetCap", "powcap_changed", "valcap_with_priority"]},
+        "required_classes": {"quick": ["VecPowerCap", "VecSetCap", "VecPowerCapBig", "powcap_changed", "valcap_with_priority"]},
         "assumptions": [],
     },
     "C12": {
         "level": "model_checking", "mc": MC_VSCFLOW, "corpora": [RANDOM, SCRIPTED],
         "invariants": ["C12_PacketIds", "C12_ConsumerMap"],
-        "properties": ["C12_IdStep", "C12_IdPerEpoch", "C12_IdHeight", "C12_ConsumerMapStable"],
+        "properties": ["C12_IdStep", "C12_IdPerEpoch", "C12_IdHeight", "C12_ConsumerMapStable", "C12_SlashId", "C12_Resolve"],
         "classify": cls_c12, "rule": "provider blocks (epoch / plain, by epoch length) and consumer blocks by number of distinct ids in the height map",
         "required_classes": {"quick": ["pblock_epoch", "consumer_ids_2"]}, "assumptions": [],
     },
@@ -464,13 +464,13 @@ PROPS = {
             "rule": "channel handshake steps by (chain, step, deviation, outcome), launches by kind of client binding, validator-set packets received",
             "required_classes": {"quick": ["p_ChanOpenTry_unordered_rej", "p_ChanOpenTry_version_rej", "p_ChanOpenTry_port_rej", "p_ChanOpenTry_good_ok", "p_ChanOpenTry_good_rej", "p_ChanOpenConfirm_good_ok", "p_ChanOpenConfirm_good_rej", "p_ChanOpenInit_good_rej", "launch_on_connection_failed"]},
             "assumptions": ["IBC core (connection/channel/proof verification) is executed, not modelled; completeness of Try acceptance is asserted only for attempts whose IBC-level inputs the scenario made valid"]},
-    "C18": {"level": "exploration", "mc": [], "corpora": [{"name": "replicas", "n": {"quick": 14, "thorough": 150}, "steps": {"quick": 70, "thorough": 120}}],
+    "C18": {"level": "exploration", "nondeterministic": True, "mc": [], "corpora": [{"name": "replicas", "n": {"quick": 14, "thorough": 150}, "steps": {"quick": 70, "thorough": 120}}],
             "invariants": ["C18_Agree", "C18_SameLength"], "properties": [], "classify": cls_c18,
             "rule": "each history (seeded random or scripted, the generators of the other properties) is executed on 3 independent application instances in one process; one evaluation = one block whose (app hash, FinalizeBlock response digest) is compared across replicas; classes = provider / consumer blocks and history lengths",
             "required_classes": {"quick": ["block_provider", "block_consumer"]},
             "assumptions": ["replicas run in one process (Go randomises map iteration per range statement); no cross-process or cross-architecture comparison"]},
     "C19": {"level": "fault_enumeration", "mc": MC_LIFE, "corpora": [RANDOM, SCRIPTED, FAULTS, REWARDS], "invariants": ["C19_NoBlockError"],
-            "properties": ["C19_LaunchRollback", "C19_RemoveRollback", "C19_AllocateRollback"], "classify": cls_c19,
+            "properties": ["C19_LaunchRollback", "C19_FailedStaysRolledBack", "C19_RemoveRollback", "C19_AllocateRollback", "C13_Frame"], "classify": cls_c19,
             "rule": "blocks of every chain, failing consumer operations and failing transactions, by kind",
             "required_classes": {"quick": ["PLaunchFail", "block_p", "block_c"]}, "assumptions": []},
     "C20": {"level": "model_checking", "mc": MC_LIFE, "corpora": [RANDOM, SCRIPTED], "invariants": ["C20_OnePending"],
@@ -489,7 +489,7 @@ MANIFEST_TEXT = {
     "C03": {"text": _TV + "MC_Shaping checks the transcribed threshold loop and auto-opt-in against the declarative MinPowerTopN for all small inputs.",
             "note": "Threshold reading: greatest power m whose top-down set reaches N percent (DESIGN C03); sticky auto-opt-in is allowed; integer arithmetic (totals < 2^31)."},
     "C04": {"text": _TV + "MC_Shaping transcribes the cap / priority partition / power-cap distribution and checks the documented postconditions exhaustively over small multisets, caps and percentages.",
-            "note": "Powers limited to TLC's 32-bit integers; ties in rank are left open as in the statement."},
+            "note": "Extreme values (totals near CometBFT's 1.15e18 limit) are checked on the real function with multi-limb arithmetic written in TLA+ (TLC integers are 32-bit); ties in rank are left open as in the statement."},
     "C12": {"text": _TV + "MC_VSCFlow checks id/height bookkeeping exhaustively for one consumer.",
             "note": "The provider's current, not yet packaged id has a recorded height and is not required to be rejected."},
     "C15": {"text": _TV + "MC_Shaping checks top-M selection with ties for all small inputs.",
